@@ -247,7 +247,7 @@ class Computed:
             if not changed:
                 for parent in self.parents.keyrefs():
                     # does parent still exist?
-                    if parent := parent():
+                    if (parent := parent()) is not None:
                         # if yes, compare old and new values for all
                         # tracked observables on this parent
                         for name, old_value in self.parents[parent].items():
